@@ -34,7 +34,7 @@ def run_child(seed, hashseed, noise, kind):
 
 
 def determinism(ctx):
-    nseeds = ctx.n(6, 40)
+    nseeds = ctx.n(9, 45)
     nvar = ctx.n(5, 24)
     orders_seen = 0
     for k in range(nseeds):
@@ -95,7 +95,7 @@ READERS = {
 
 def read_only(ctx):
     n = ctx.n(25, 400)
-    for k in range(n):
+    for k in ctx.loop(n):
         rng = ctx.rng
         d = gen.rand_design(rng, profile='small', nops=rng.randint(3, 10), raw=False,
                             ops=[o for o in gen.OPS_ALL if o != 'nand'])
